@@ -5,7 +5,8 @@ CXX_SOURCES = ['olad/ClientBroker.cpp', 'olad/DiscoveryAgent.cpp', 'olad/HttpSer
                'olad/RDMHTTPModule.cpp', 'olad/OlaServer.cpp',
                'common/http/HTTPServer.cpp', 'common/http/OlaHTTPServer.cpp',
                'ola/OlaClient.cpp', 'ola/OlaClientCore.cpp', 'ola/ClientTypesFactory.cpp',
-               'ola/OlaCallbackClient.cpp', 'ola/ClientRDMAPIShim.cpp']
+               'ola/OlaCallbackClient.cpp', 'ola/ClientRDMAPIShim.cpp', 'ola/StreamingClient.cpp',
+               'ola/AutoStart.cpp']
 CXXFLAGS = ['-DHTTP_DATA_DIR="/nonexistent-c04"']
 LIBS = ['-lmicrohttpd']
 WRAP = ['clock_gettime', '_ZSt18_Rb_tree_incrementPKSt18_Rb_tree_node_base',
@@ -53,6 +54,9 @@ def gen_one(rng, nops, sched):
     def apr():
         return rng.choice(ppal) if palette and rng.random() < 0.85 else rng.choice(API_PRIOS)
     ncl = rng.choice([2, 3, 3, 4])
+    # in a fifth of the histories the last client is a real ola::client::StreamingClient over loopback
+    # TCP: it can only stream frames and stop
+    streaming = ncl - 1 if rng.random() < 0.2 else None
     ops = []
     elapsed = 0
     closed = set()
@@ -61,13 +65,21 @@ def gen_one(rng, nops, sched):
         return rng.choice(unis + [unis[0]]) if rng.random() < 0.95 else rng.choice(UNIS)
     # most histories start by registering somebody so that universes exist
     for _ in range(rng.choice([0, 1, 1, 2, 3])):
-        ops.append('G,%d,%d,1' % (rng.randrange(ncl), uni()))
+        ops.append('G,%d,%d,1' % (rng.randrange(ncl if streaming is None else ncl - 1), uni()))
         if not sched or rng.random() < 0.7:
             ops.append('*')
     for _ in range(nops):
         c = rng.randrange(ncl)
         r = rng.random()
-        if r < 0.30:
+        if c == streaming and r < 0.73:
+            if r < 0.6:
+                ops.append('T,%d,%d,%d,%s' % (c, uni(), apr(), fr()))
+            elif r < 0.65:
+                ops.append('D,%d' % c)
+                closed.add(c)
+            else:
+                ops.append(rng.choice(['>,%d' % c, '*']))
+        elif r < 0.30:
             kind = rng.choice(['S', 'S', 'T', 'RS', 'RT'])
             if kind in ('S', 'T'):
                 ops.append('%s,%d,%d,%d,%s' % (kind, c, uni(), apr(), fr()))
@@ -112,7 +124,8 @@ def gen_one(rng, nops, sched):
         elif rng.random() < 0.15:
             ops.append('*')
     ops.append('*')
-    return '%d %s' % (ncl, ' '.join(ops))
+    hdr = '%d' % ncl if streaming is None else '%d:%d' % (ncl, streaming)
+    return '%s %s' % (hdr, ' '.join(ops))
 
 def gen_repeat(rng):
     """A repeats an identical frame (acked S or streamed T) around another sender's update, in LTP
@@ -196,7 +209,7 @@ def nontrivial(payload, md):
     obs = md.get('obs', '')
     return '.ok' in obs and 'dmx:' in obs
 
-RULE = ('histories of 6-36 client-library calls by 2-4 real OlaClient instances against one real OlaServer '
+RULE = ('histories of 6-36 client-library calls by 2-4 real OlaClient instances (in a fifth of the histories one of them a real StreamingClient over loopback TCP) against one real OlaServer '
         '(acked/streamed/raw-protobuf sends with frame sizes {0,1,2,3,4,512,513,600} and priorities '
         '{0,1,99,100,101,199,200,201,255 | absent,256,300,456,511,2^31-1}, fetch, register/unregister, merge mode, '
         'name, info, patch, disconnects anywhere, half of the histories drawing frames/priorities from a 2-3 entry palette so senders repeat identical frames, plus dedicated repeat-identical-frame histories (acked and streamed, LTP/HTP, with a higher-priority sender going quiet across the 2.5 s source timeout), histories in which frames of two senders are dispatched in the same event-loop iteration while the clock moves on (ops J/}: wake-up time vs fresh clock), clock ticks {0,1,1000,2499999,2500000,2500001 us}, housekeeping); '
@@ -211,7 +224,7 @@ ASSUMPTIONS = ['RPC transport abstracted to per-direction FIFO delivery of whole
                'operator new does not fail',
                'the harness resets SIGPIPE to SIG_DFL before OlaServer::Init() and only observes afterwards: key sigpipe=1 when the '
                'daemon left the default disposition (or a SIGPIPE was delivered during the case); the model fixes it to 0']
-TRUSTED = ['modelled rather than verified: OlaClientCore SendDMX/FetchDMX/RegisterUniverse/SetUniverseMergeMode/'
+TRUSTED = ['modelled rather than verified: StreamingClient Setup/Send/Stop (as a client that only streams; real instances over loopback TCP in the harness), OlaClientCore SendDMX/FetchDMX/RegisterUniverse/SetUniverseMergeMode/'
            'SetUniverseName/FetchUniverseInfo/Patch + Handle* completions + UpdateDmxData, RpcChannel CallMethod/'
            'HandleRequest/HandleStreamRequest/HandleResponse/HandleFailedResponse/SendMsg failure path, RpcServer::'
            'ChannelClosed, OlaServer::NewClient/ClientRemoved/RunHousekeeping, OlaServerServiceImpl UpdateDmxData/'
@@ -222,14 +235,20 @@ TRUSTED = ['modelled rather than verified: OlaClientCore SendDMX/FetchDMX/Regist
            'and routes std::_Rb_tree_increment through an instrumented probe so that ASan sees stale set iterators',
            'TCP, OS scheduling, the HTTP server, plugins/ports/RDM are not modelled']
 LEVEL_TEXT = ('Coq theorems over an executable model of N client libraries + per-client FIFO channels + the olad '
-              'service/universe store + the deferred ClientRemoved, with the schedule as a universally quantified input. '
-              'Proved for every schedule: no request id completes twice, and for a connected client with drained channels every issued id has completed exactly once (outstanding table = ids in flight); ClientRemoved never runs inside a service '
-              'method (hazard unreachable, with fixes/02); sink sets stay duplicate-free with live sessions; the frames '
-              'applied for a sender are in send order (subsequence of the consumed prefix of its sent log, the rest '
-              'being exactly what is queued); a processed send is stored as (frame cut to 512, now, clamped priority), '
-              'the universe holds the HTP merge of the live top-priority group / the newest frame (LTP), every open '
-              'registered sink gets exactly one push with that universe/priority/frame and a fetch returns it; a '
-              'processed disconnect removes the client everywhere and leaves everybody else unchanged.  No clause of the property is left to the correspondence check alone; the LTP clause is stated relative to the stored timestamps (that they never exceed the wake-up time is not a proved invariant).')
+              'service/universe store + the deferred ClientRemoved, with the schedule (deliveries, disconnects, clock '
+              'ticks inside and between loop iterations, housekeeping) as a universally quantified input.  Proved for '
+              'every schedule: each request id completes at most once, and exactly once for a connected client whose '
+              'channels are drained; ClientRemoved never runs inside a service method; sink sets stay duplicate-free '
+              'with live sessions; stored timestamps are wake-up times of the past; per sender, consumed requests = '
+              'interleaving of applied and refused frames in send order (applied = sent once drained with nothing '
+              'refused); a processed send is stored as (frame cut to 512, wake-up time, clamped priority), the universe '
+              'holds the HTP merge of the live top-priority group, or the last writer\'s frame (LTP), or exactly the '
+              'frame of a single sender, every open registered sink gets exactly one push with that '
+              'universe/priority/frame and a fetch returns it; a processed disconnect removes the client everywhere, '
+              'leaves everybody else unchanged, is permanent, and nothing the gone client does afterwards changes '
+              'anything but request numbering.  Not proved: the literal projection form of non-interference (needs '
+              'request-id renaming); fidelity is stated for the service-method step (composition with the poller '
+              'step is by c04_fifo_partial).')
 LEVEL_NOTE = ('Trusted: Coq kernel, extraction (ExtrOcamlBasic), OCaml/C++ glue (the glue contains the drain loop), '
               'generator coverage of the correspondence; model = code is validated by differential testing of a real '
               'in-process OlaServer and real OlaClient objects under ASan/UBSan, not proved; protobuf, pipes, '
